@@ -315,7 +315,9 @@ def build_graph(ctx, source_kwargs):
             cont = True
         elif op == 'map':
             spec = tuple(n['fn'])
-            s = ups[0].map(ctx.sync_fn(nid, lambda x, _s=spec: fns.f1(_s, x)))
+            margs = tuple(n.get('args', ()))
+            mkw = dict(n.get('kwargs', {}))
+            s = ups[0].map(ctx.sync_fn(nid, lambda x, *a, _s=spec, **k: fns.mapf(_s, x, *a, **k)), *margs, **mkw)
         elif op == 'starmap':
             spec = tuple(n['fn'])
             args = tuple(n.get('args', ()))
